@@ -134,6 +134,11 @@ def compare(observed, expected):
         if obs != v:
             errs.append(((), obs, v))
         return errs
+    if kind == "bogus":
+        want = [r["b"] if r["b"] >= 0 else "ins_%d" % r["s"] for r in v]
+        if obs != want:
+            errs.append(((), obs, want))
+        return errs
     if kind == "oneof":
         if obs not in v:
             errs.append(((), obs, v))
